@@ -247,7 +247,7 @@ func c17Run(out *Out, p *STProg, s0 int) {
 	cj, _ := json.Marshal(C17Case{Kind: "prog", Prog: p, S0: s0})
 	out.Ev("Init", "prog", p.tla(), "s0", s0, "case", string(cj))
 	rec := &stRec{tr: []int{}, hs: []map[string]any{}}
-	func() {
+	deadline(out, caseDeadline, func() {
 		defer func() {
 			if r := recover(); r != nil {
 				out.Ev("Panic", "v", "panic")
@@ -265,7 +265,7 @@ func c17Run(out *Out, p *STProg, s0 int) {
 			e = stErrName(res.Failed().Get())
 		}
 		out.Ev("Run", "ok", ok, "v", v, "err", e, "s", s, "steps", rec.tr, "hs", rec.hs)
-	}()
+	})
 	out.Ev("End")
 }
 
